@@ -6,6 +6,7 @@ import (
 
 	"verif/harness/internal/devx"
 	"verif/harness/internal/ev"
+	"verif/harness/internal/sched"
 	"verif/harness/internal/world"
 )
 
@@ -57,7 +58,11 @@ type c06Verdict struct {
 
 func c06Judge(p ssoP) c06Verdict {
 	w, req, t := ssoBuild(p)
-	o := ssoRun(w, req)
+	return c06JudgeOutcome(t, ssoRun(w, req))
+}
+
+// c06JudgeOutcome judges one classified reply against the ground truth of the request that produced it.
+func c06JudgeOutcome(t *ssoTruth, o ssoOutcome) c06Verdict {
 	v := c06Verdict{}
 	if o.Rep.Panic != "" {
 		v.Class = "blocked_by_panic"
@@ -179,6 +184,9 @@ func init() { Registry["C06"] = runC06 }
 
 func runC06(ctx Ctx) int {
 	world.PinClock()
+	if rc, ok := concDispatch("C06", ctx); ok {
+		return rc
+	}
 	run := ev.NewRun("C06")
 	run.Rule = "full product of 96 IdP configurations (issuer x SSO endpoint x transport x storage lookup mode exact / case-insensitive / trailing-slash-tolerant) x every assignment of 13 message-validity dimensions with at most k deviations from the conformant default (k<=2 quick, k<=3 thorough); plus event histories on one provider for every k<=1 shape x config: (valid request accepted) ; p and (valid request accepted) ; SP unregistered ; p, and two-host histories (valid request under another host name) ; p for metadata endpoint default / fixed URL x Destination advertised here / advertised to the other host / absent; one execution = fresh provider + one real SSO request, clock pinned; oracle = necessary conditions of acceptance evaluated on generator ground truth"
 	run.Assume = []string{"ambiguous inputs (trailing bytes after a DEFLATE stream, raw XML on the Redirect binding, base64 with embedded newlines) are not in the alphabet: the statement does not say which way they must go"}
@@ -285,6 +293,66 @@ func runC06(ctx Ctx) int {
 	run.Sample(items[0].p)
 	run.Sample(items[len(items)/2].p)
 	run.Sample(items[len(items)-1].p)
+	cb, cs := 1, 90
+	if run.Tier == "thorough" {
+		cb, cs = 2, 1200
+	}
+	runConc(run, "C06", cb, cs)
 	finishCapped(run, complete, fmt.Sprintf("%d executions: 96 configs x k<=%d over %d message dims (%d single alternatives)", len(items), k, len(c06Msg.Dims), c06Msg.CountK(1)-1))
 	return run.Finish()
 }
+
+
+// ---- concurrent part: a valid and an invalid request at the same time on ONE provider (two host names in use) ----------------
+// Every accepted request must satisfy every validity condition ITSELF, whatever else is in flight.
+
+var c06ConcBodies = []struct {
+	Name string
+	P    ssoP
+}{
+	{"valid-host-a", ssoP{}},
+	{"valid-host-b", ssoP{Host: "other.example:8443"}},
+	{"valid-post-host-a", ssoP{Transport: "post"}},
+	{"destination-of-the-other-host", ssoP{Dest: "other-host"}},
+	{"foreign-destination", ssoP{Dest: "host"}},
+	{"expired", ssoP{NOOA: "-1us"}},
+	{"not-yet-valid-post", ssoP{NB: "+1us", Transport: "post"}},
+	{"unregistered-issuer", ssoP{Issuer: "unregistered"}},
+	{"no-id", ssoP{ID: "absent"}},
+	{"unknown-encoding", ssoP{Encoding: "unknown"}},
+	{"ill-formed", ssoP{XML: "ill-formed"}},
+}
+
+func c06ConcScenarios() []concScenario {
+	var out []concScenario
+	for i := range c06ConcBodies {
+		for j := i; j < len(c06ConcBodies); j++ {
+			bi, bj := c06ConcBodies[i], c06ConcBodies[j]
+			ps := [2]ssoP{bi.P, bj.P}
+			ps[0].IssuerCfg, ps[1].IssuerCfg = "host", "host"
+			var truths [2]*ssoTruth
+			out = append(out, concScenario{
+				Name: bi.Name + " || " + bj.Name,
+				Build: func() (*world.World, []func() *world.Reply) {
+					w, r0, t0 := ssoBuild(ps[0])
+					_, r1, t1 := ssoBuild(ps[1])
+					truths = [2]*ssoTruth{t0, t1}
+					return w, []func() *world.Reply{func() *world.Reply { return w.Do(r0) }, func() *world.Reply { return w.Do(r1) }}
+				},
+				Judge: func(w *world.World, reps []*world.Reply, _ *sched.Exec) []concFinding {
+					var fs []concFinding
+					for t, rep := range reps {
+						v := c06JudgeOutcome(truths[t], ssoOutcomeOf(rep))
+						for _, c := range v.Clause {
+							fs = append(fs, concFinding{Clause: c, Thread: t, Detail: fmt.Sprint(v.Detail)})
+						}
+					}
+					return fs
+				},
+			})
+		}
+	}
+	return out
+}
+
+func init() { concRegistry["C06"] = c06ConcScenarios }
